@@ -30,6 +30,24 @@ def discover(F):
         items = {it["name"]: it["def"] for it in D.inherent(adt)}
         if "calculate_size" in items and "write_into_unchecked" in items:
             out.append(Builder(adt, items["calculate_size"], items["write_into_unchecked"], None, "sub"))
+            continue
+        # element builders whose size / unchecked-write pair carries other (private) names: recognised by signature —
+        # `fn(&self) -> Result<usize, RtcpWriteError>` and `fn(&self, &mut [u8]) -> usize`, when there is exactly one of each
+        if not adt.endswith("Builder"):
+            continue
+        sizes, writers = [], []
+        for it in D.inherent(adt):
+            b = F.bodies.get(it["def"])
+            if not b or b.get("ret") is None or not b["params"] or not b["params"][0].get("self"):
+                continue
+            ps = [F.types[p["t"]]["s"] for p in b["params"]]
+            rs = F.types[b["ret"]]["s"]
+            if len(ps) == 1 and ps[0].startswith("&") and not ps[0].startswith("&mut") and "Result<usize, RtcpWriteError>" in rs:
+                sizes.append(it["def"])
+            if len(ps) == 2 and ps[0].startswith("&") and not ps[0].startswith("&mut") and ps[1] == "&mut [u8]" and rs == "usize":
+                writers.append(it["def"])
+        if len(sizes) == 1 and len(writers) == 1:
+            out.append(Builder(adt, sizes[0], writers[0], None, "sub"))
     return out
 
 
